@@ -122,3 +122,62 @@ Theorem C06_document_with_reference_to_unknown_table_never_builds :
     build_database s allow sq dq h0 <> (h1, Ok dd).
 Proof. exact build_database_rejects_unknown_table. Qed.
 Print Assumptions C06_document_with_reference_to_unknown_table_never_builds.
+
+From PyDBML Require Import BuildDocs.
+From Coq Require Import String.
+Open Scope string_scope.
+Open Scope list_scope.
+
+(* a reference (standalone or inline, any position, either side, composite or not) naming a column that no table blueprint
+   answering to that side's table name declares never builds.  [TabCols]: every table in the name index was built from a table
+   blueprint whose keys include the index key, and has exactly that blueprint's column names, through every later step. *)
+Theorem C06_document_with_reference_to_unknown_column_never_builds :
+  forall s allow sq dq h0 h1 dd l1 rb l2,
+    WW h0 -> (forall t tb, h_table h0 t = Some tb -> NoDup (names_of tb)) -> Forall good_table_bp (ps_tables s) ->
+    ps_refs s = l1 ++ rb :: l2 -> ref_col_missing (ps_tables s) rb ->
+    build_database s allow sq dq h0 <> (h1, Ok dd).
+Proof. exact build_database_rejects_unknown_column. Qed.
+Print Assumptions C06_document_with_reference_to_unknown_column_never_builds.
+
+(* an index over a column name its own table does not declare never builds (no side condition on the rest of the document) *)
+Theorem C06_document_with_index_over_unknown_column_never_builds :
+  forall s allow sq dq h0 h1 dd l1 bp l2,
+    ps_tables s = l1 ++ bp :: l2 -> index_col_missing bp -> build_database s allow sq dq h0 <> (h1, Ok dd).
+Proof. exact build_database_rejects_index_over_unknown_column. Qed.
+Print Assumptions C06_document_with_index_over_unknown_column_never_builds.
+
+(* a table group naming a table no table blueprint provides never builds *)
+Theorem C06_document_with_group_of_unknown_table_never_builds :
+  forall s allow sq dq h0 h1 dd l1 gb l2,
+    WW h0 -> (forall t tb, h_table h0 t = Some tb -> NoDup (names_of tb)) -> Forall good_table_bp (ps_tables s) ->
+    ps_groups s = l1 ++ gb :: l2 -> group_names_missing (flat_map bp_keys (ps_tables s)) gb ->
+    build_database s allow sq dq h0 <> (h1, Ok dd).
+Proof. exact build_database_rejects_group_of_unknown_table. Qed.
+Print Assumptions C06_document_with_group_of_unknown_table_never_builds.
+
+(* a table group listing the same name twice never builds *)
+Theorem C06_document_with_group_listing_a_name_twice_never_builds :
+  forall s allow sq dq h0 h1 dd l1 gb l2,
+    WW h0 -> (forall t tb, h_table h0 t = Some tb -> NoDup (names_of tb)) -> Forall good_table_bp (ps_tables s) ->
+    ps_groups s = l1 ++ gb :: l2 -> group_repeats gb ->
+    build_database s allow sq dq h0 <> (h1, Ok dd).
+Proof. exact build_database_rejects_group_listing_a_name_twice. Qed.
+Print Assumptions C06_document_with_group_listing_a_name_twice_never_builds.
+
+(* each of the document-level theorems above lifts to source texts: whatever blueprints the grammar produced for the text *)
+Theorem C06_source_never_parses_when_its_blueprints_never_build :
+  forall source allow sq dq h0 st,
+    blueprints_of source allow h0 = (h0, Ok st) -> (forall h1 dd, build_database st allow sq dq h0 <> (h1, Ok dd)) ->
+    forall h1 d, parser_parse source allow sq dq h0 <> (h1, Ok d).
+Proof. exact parser_rejects_when_build_rejects. Qed.
+Print Assumptions C06_source_never_parses_when_its_blueprints_never_build.
+
+(* the hypotheses are satisfiable, and on such documents the model raises the error of the rule *)
+Theorem C06_document_rules_examples :
+  (ref_col_missing (ps_tables ex_doc_col) (ex_ref "b" "a_id" "a" "zz") /\ Forall good_table_bp (ps_tables ex_doc_col)
+   /\ snd (build_database ex_doc_col false 0 1 []) = Raise EColumnNotFound)
+  /\ (index_col_missing (ex_table "a" ["id"] [ex_index ["id"; "nope"]]) /\ snd (build_database ex_doc_idx false 0 1 []) = Raise EColumnNotFound)
+  /\ (group_names_missing (flat_map bp_keys (ps_tables ex_doc_grp)) (ex_group "g" ["a"; "ghost"]) /\ snd (build_database ex_doc_grp false 0 1 []) = Raise ETableNotFound)
+  /\ (group_repeats (ex_group "g" ["a"; "b"; "a"]) /\ snd (build_database ex_doc_grp2 false 0 1 []) = Raise EValidation).
+Proof. exact (conj unknown_column_example (conj index_unknown_column_example (conj group_unknown_table_example group_repeat_example))). Qed.
+Print Assumptions C06_document_rules_examples.
